@@ -319,7 +319,7 @@ class Program:
                     return a // b
                 if isinstance(e.op, ast.Div):
                     return a / b
-                if isinstance(e.op, ast.Mod) and isinstance(a, int):
+                if isinstance(e.op, ast.Mod) and isinstance(a, (int, bytes, str)):
                     return a % b
                 if isinstance(e.op, ast.Pow):
                     return a ** b
